@@ -1,9 +1,352 @@
-"""Other substrates (Miri targets, other native build flavours). Filled in below."""
+"""Other substrates: Miri targets (checked memory, seeded scheduler, weak
+memory emulation, NEON / 32-bit / big-endian code) and the other native build
+flavours (no debug assertions, compile-time +avx2)."""
+import json
+import os
+import subprocess
+import time
+
+import driver as D
+
+TARGETS = {
+    "x86_64": "x86_64-unknown-linux-gnu",
+    "aarch64": "aarch64-unknown-linux-gnu",
+    "i686": "i686-unknown-linux-gnu",
+    "s390x": "s390x-unknown-linux-gnu",
+}
+MIRI_DIR = os.path.join(D.BUILD, "miri")
+
+
+def miri_env(target, miri_seed=0, extra_flags="", rustflags_extra=""):
+    env = dict(D.ENV_BASE)
+    env["MIRI_SYSROOT"] = os.path.join(MIRI_DIR, "sysroot-" + target)
+    env["CARGO_TARGET_DIR"] = os.path.join(MIRI_DIR, "target" + ("-avx2" if "avx2" in rustflags_extra else ""))
+    env["RUSTFLAGS"] = ("--cfg memchr_verif " + rustflags_extra).strip()
+    env["MIRIFLAGS"] = ("-Zmiri-disable-isolation -Zmiri-ignore-leaks -Zmiri-seed=%d %s" % (miri_seed, extra_flags)).strip()
+    return env
+
+
+def miri_cmd(target, args):
+    return ["cargo", "+nightly", "miri", "run", "--offline", "--no-default-features", "--target", TARGETS[target],
+            "--"] + args
+
+
+_ready = set()
+
+
+def ensure(target, rustflags_extra=""):
+    """Sysroot + build of memsim for a Miri target (offline)."""
+    key = (target, rustflags_extra)
+    if key in _ready:
+        return
+    D.gen_shadow()
+    os.makedirs(MIRI_DIR, exist_ok=True)
+    sysroot = os.path.join(MIRI_DIR, "sysroot-" + target)
+    env = miri_env(target, rustflags_extra=rustflags_extra)
+    if not os.path.isdir(os.path.join(sysroot, "lib")):
+        t0 = time.time()
+        env2 = dict(D.ENV_BASE)
+        env2["MIRI_SYSROOT"] = sysroot
+        r = subprocess.run(["cargo", "+nightly", "miri", "setup", "--offline", "--target", TARGETS[target]],
+                           cwd=D.SIM, env=env2, capture_output=True, text=True)
+        if r.returncode != 0:
+            raise D.HarnessError("cargo miri setup for %s failed:\n%s" % (target, r.stderr[-3000:]))
+        D.log("[miri] sysroot for %s built in %.0fs" % (target, time.time() - t0))
+    t0 = time.time()
+    r = subprocess.run(miri_cmd(target, ["info"]), cwd=D.SIM, env=env, capture_output=True, text=True)
+    if r.returncode != 0:
+        raise D.HarnessError("memsim does not build/run under Miri for %s:\n%s" % (target, r.stderr[-4000:]))
+    D.log("[miri] memsim for %s%s ready in %.0fs" % (target, " +avx2" if rustflags_extra else "", time.time() - t0))
+    _ready.add(key)
 
 
 def setup():
-    return
+    for t in TARGETS:
+        ensure(t)
+    ensure("x86_64", "-Ctarget-feature=+avx2")
+
+
+UB_MARKERS = ("Undefined Behavior", "Data race detected", "unsupported operation", "error: abnormal termination",
+              "the evaluated program")
+
+
+def classify(stderr):
+    """Maps a Miri diagnostic to the property that owns it (or None)."""
+    s = stderr
+    if "Data race detected" in s:
+        return "C15", "data race"
+    mem = ("out-of-bounds", "dangling", "has been freed", "use-after-free", "memory access failed", "alignment",
+           "not aligned", "in-bounds pointer arithmetic failed", "uninitialized")
+    if any(m in s for m in mem):
+        if "has been freed" in s or "use-after-free" in s or "dangling" in s:
+            return "C05/C16", "use of freed memory"
+        return "C05", "memory access / alignment"
+    if "Undefined Behavior" in s:
+        return "C14", "undefined behaviour"
+    return None, "interpreter error"
+
+
+def run_miri(prop, target, seed, first, count, procs, per_proc, miri_seed_base=0, extra_flags="", portable=False,
+             rustflags_extra="", timeout=1500, want_hashes=False):
+    """Runs `count` families under Miri in `procs`-way parallel processes of
+    `per_proc` families each. Returns a dict with stats / violation."""
+    ensure(target, rustflags_extra)
+    os.makedirs(D.SCRATCH, exist_ok=True)
+    jobs = []
+    i = first
+    k = 0
+    while i < first + count:
+        j = min(first + count, i + per_proc)
+        jobs.append((i, j, miri_seed_base + k))
+        i = j
+        k += 1
+    jobs.reverse()
+    running = {}
+    out = {"families": 0, "executions": 0, "ops": 0, "stats": {}, "hashes": {}, "violation": None, "procs": 0,
+           "samples": [], "wall": 0.0}
+    t0 = time.time()
+    stop = False
+    files = []
+    while (jobs and not stop) or running:
+        while jobs and not stop and len(running) < procs:
+            lo, hi, ms = jobs.pop()
+            of = os.path.join(D.SCRATCH, "miri-%s-%s-%d-%d.json" % (prop, target, os.getpid(), lo))
+            args = ["run", "--prop", prop, "--seed", str(seed), "--from", str(lo), "--to", str(hi), "--out", of]
+            if portable:
+                args.append("--portable")
+            if want_hashes:
+                args.append("--hashes")
+            env = miri_env(target, ms, extra_flags, rustflags_extra)
+            p = subprocess.Popen(miri_cmd(target, args), cwd=D.SIM, env=env, stdout=subprocess.DEVNULL,
+                                 stderr=subprocess.PIPE)
+            running[p.pid] = (p, lo, hi, ms, of, time.time())
+            files.append(of)
+        time.sleep(0.05)
+        for pid in list(running):
+            p, lo, hi, ms, of, started = running[pid]
+            rc = p.poll()
+            if rc is None:
+                if time.time() - started > timeout:
+                    p.kill()
+                    p.wait()
+                    del running[pid]
+                    raise D.HarnessError("Miri worker %s %d..%d exceeded %ds" % (target, lo, hi, timeout))
+                continue
+            err = p.stderr.read().decode("utf-8", "replace")
+            del running[pid]
+            out["procs"] += 1
+            rep = None
+            try:
+                with open(of) as f:
+                    rep = json.load(f)
+            except Exception:
+                rep = None
+            if rep is not None and rc in (0, 1):
+                D.merge_stats(out["stats"], rep["stats"])
+                out["families"] += rep["families"]
+                out["executions"] += rep["executions"]
+                if len(out["samples"]) < 2:
+                    out["samples"].extend(rep["samples"][:1])
+                for idx, h in rep.get("log_hashes", []):
+                    out["hashes"][idx] = h
+                if rc == 1 and rep.get("violation"):
+                    v = rep["violation"]
+                    out["violation"] = {"how": "report", "family": v["index"], "violations": v["violations"],
+                                        "replay": v["family"], "target": target, "miri_seed": ms,
+                                        "extra_flags": extra_flags, "rustflags_extra": rustflags_extra,
+                                        "portable": portable}
+                    stop = True
+                continue
+            # the interpreter aborted
+            fams = [l for l in err.splitlines() if l.startswith("FAMILY ")]
+            fam = int(fams[-1].split()[1]) if fams else lo
+            owner, what = classify(err)
+            diag = "\n".join(l for l in err.splitlines() if "error" in l.lower() or "Undefined" in l)[:1500]
+            if owner is None and not any(m in err for m in UB_MARKERS):
+                raise D.HarnessError("Miri worker %s %d..%d failed (exit %s):\n%s" % (target, lo, hi, rc, err[-3000:]))
+            out["violation"] = {"how": "miri", "family": fam, "owner": owner, "what": what, "diag": diag,
+                                "target": target, "miri_seed": ms, "extra_flags": extra_flags,
+                                "rustflags_extra": rustflags_extra, "portable": portable}
+            stop = True
+    for pid in list(running):
+        running[pid][0].kill()
+    for of in files:
+        for suf in ("", ".sigs", ".trap", ".progress"):
+            try:
+                os.remove(of + suf)
+            except OSError:
+                pass
+    out["wall"] = time.time() - t0
+    out["ops"] = out["stats"].get("ops", 0)
+    return out
+
+
+def miri_replay_file(prop, seed, v):
+    """Writes a replay file that records the substrate it needs."""
+    os.makedirs(D.REPLAYS, exist_ok=True)
+    path = os.path.join(D.REPLAYS, "%s-seed%d-family%s.miri-%s.json" % (prop, seed, v["family"], v["target"]))
+    if v["how"] == "report":
+        fam = v["replay"]
+    else:
+        args = ["gen", "--prop", prop, "--seed", str(seed), "--index", str(v["family"])]
+        if v.get("portable"):
+            args.append("--portable")
+        env = miri_env(v["target"], v["miri_seed"], v["extra_flags"], v["rustflags_extra"])
+        r = subprocess.run(miri_cmd(v["target"], args), cwd=D.SIM, env=env, capture_output=True, text=True)
+        if r.returncode != 0:
+            raise D.HarnessError("memsim gen under Miri failed: " + r.stderr[-2000:])
+        fam = json.loads(r.stdout.strip().splitlines()[-1])
+    fam["substrate"] = {"miri_target": v["target"], "miri_seed": v["miri_seed"], "extra_flags": v["extra_flags"],
+                        "rustflags_extra": v["rustflags_extra"], "portable": bool(v.get("portable"))}
+    with open(path, "w") as f:
+        json.dump(fam, f)
+    return path
+
+
+def replay_under_miri(path, sub):
+    """Returns (violated: bool, text)."""
+    target = sub["miri_target"]
+    ensure(target, sub.get("rustflags_extra", ""))
+    env = miri_env(target, sub.get("miri_seed", 0), sub.get("extra_flags", ""), sub.get("rustflags_extra", ""))
+    args = ["replay", path]
+    if sub.get("portable"):
+        args.append("--portable")
+    r = subprocess.run(miri_cmd(target, args), cwd=D.SIM, env=env, capture_output=True, text=True, timeout=3000)
+    if r.returncode == 0:
+        return False, "clean"
+    try:
+        parsed = json.loads(r.stdout.strip().splitlines()[-1])
+        if parsed.get("violations"):
+            v = parsed["violations"][0][1]
+            return True, "%s: %s" % (v["kind"], v["what"])
+    except Exception:
+        pass
+    owner, what = classify(r.stderr)
+    if owner or any(m in r.stderr for m in UB_MARKERS):
+        diag = " | ".join(l.strip() for l in r.stderr.splitlines() if l.startswith("error"))[:600]
+        return True, "Miri (%s): %s" % (what, diag)
+    raise D.HarnessError("replay under Miri failed without a diagnostic:\n" + r.stderr[-3000:])
+
+
+def report_miri_violation(prop, seed, v):
+    """Confirms by replaying in a fresh interpreter; returns dict or None
+    (None: it belongs to another property / did not reproduce)."""
+    owners = (v.get("owner") or prop).split("/")
+    if v["how"] == "miri" and prop not in owners:
+        D.log("note: Miri diagnostic owned by %s while checking %s (not reported here): %s"
+              % (v.get("owner"), prop, v.get("diag", "")[:300]))
+        return None
+    path = miri_replay_file(prop, seed, v)
+    with open(path) as f:
+        sub = json.load(f)["substrate"]
+    bad, text = replay_under_miri(path, sub)
+    if not bad:
+        raise D.HarnessError("Miri violation in family %s (%s) did not reproduce from %s" % (v["family"], v["target"], path))
+    return {"replay": path, "text": "[miri %s seed %d] %s" % (v["target"], v["miri_seed"], text)}
+
+
+# ---------------------------------------------------------------------------
+# what each property runs besides the native dbg flavour
+
+#          prop: [(target, quick families, thorough families, rustflags_extra, extra miri flags)]
+MIRI_PLAN = {
+    "C05": [("x86_64", 48, 1600, "", ""), ("aarch64", 48, 1600, "", ""),
+            ("x86_64", 0, 800, "-Ctarget-feature=+avx2", ""), ("i686", 0, 600, "", ""), ("s390x", 0, 600, "", "")],
+    "C06": [("aarch64", 16, 800, "", "")],
+    "C07": [("aarch64", 16, 800, "", "")],
+    "C08": [("s390x", 0, 400, "", "")],
+    "C14": [("i686", 32, 800, "", ""), ("s390x", 0, 800, "", ""), ("aarch64", 0, 800, "", "")],
+    "C15": [("x86_64", 64, 2048, "", "-Zmiri-preemption-rate=0.1"),
+            ("aarch64", 0, 1024, "", "-Zmiri-preemption-rate=0.1"),
+            ("x86_64", 0, 1024, "-Ctarget-feature=+avx2", "-Zmiri-preemption-rate=0.1")],
+    "C16": [("x86_64", 16, 800, "", "")],
+}
 
 
 def extra_substrates(prop, tier, seed, t0):
-    return {}
+    cov = {}
+    assumptions = []
+    if os.environ.get("VERIF_NO_MIRI"):
+        return {"coverage": {"miri": "skipped (VERIF_NO_MIRI set)"}}
+    if prop == "C09":
+        return c09_cross_process(tier, seed)
+    plan = MIRI_PLAN.get(prop, [])
+    runs = []
+    for (target, q, t, rf, xf) in plan:
+        n = q if tier == "quick" else t
+        if n <= 0:
+            continue
+        per = 3 if tier == "quick" else 10
+        if prop == "C15":
+            per = 2 if tier == "quick" else 4
+        r = run_miri(prop, target, seed, 0, n, D.NCPU, per, miri_seed_base=seed * 1000, extra_flags=xf,
+                     rustflags_extra=rf)
+        runs.append({"target": TARGETS[target] + (" +avx2" if rf else ""), "families": r["families"],
+                     "operations": r["ops"], "interpreter_processes_(=miri_seeds)": r["procs"],
+                     "wall_s": round(r["wall"], 1),
+                     "context_switch_points_(seam_events)": r["stats"].get("seam_events", 0)})
+        if r["violation"]:
+            rep = report_miri_violation(prop, seed, r["violation"])
+            if rep:
+                cov["miri_runs"] = runs
+                return {"violation": rep, "coverage": cov}
+    if runs:
+        cov["miri_runs"] = runs
+        assumptions.append("Miri runs: the interpreter's seeded scheduler and checked memory own the interleaving and the "
+                           "bounds oracle there; a Miri failure replays from (target, flags, miri seed, VERIF_SEED, family) "
+                           "and is not schedule-minimised")
+    return {"coverage": cov, "assumptions": assumptions}
+
+
+def c09_cross_process(tier, seed):
+    """The same portable episodes under other build flavours and Miri targets;
+    per-family result-log hashes are diffed against the native dbg flavour."""
+    n_native = 20000 if tier == "quick" else 400000
+    cov = {"cross_process": []}
+    ref = None
+    for flavour in ("dbg", "plain", "avx2"):
+        exe = D.build(flavour)
+
+        def wrap(cmd):
+            return cmd + ["--portable"]
+        r = D.run_workers(exe, "C09", seed, n_native, max(200, n_native // (D.NCPU * 2)), want_hashes=True,
+                          wrapper=wrap)
+        D.cleanup_outs(r)
+        if r.violation is not None:
+            mn, text = D.handle_violation_portable(exe, "C09", seed, r.violation)
+            return {"violation": {"replay": mn, "text": "[flavour %s] %s" % (flavour, text)}, "coverage": cov}
+        cov["cross_process"].append({"configuration": "native x86_64 " + flavour, "families": r.families,
+                                     "operations": r.stats.get("ops", 0),
+                                     "backend_served[swar,sse2,avx2]": r.stats.get("ran_backend")})
+        if ref is None:
+            ref = r.hashes
+        else:
+            bad = sorted(i for i in ref if r.hashes.get(i) != ref[i])
+            if bad:
+                v = {"how": "hash", "family": bad[0], "flavour": flavour}
+                path = D.flavour_replay_file("C09", seed, bad[0], flavour)
+                return {"violation": {"replay": path, "text": "result log of family %d differs between native dbg and "
+                                      "native %s builds" % (bad[0], flavour)}, "coverage": cov}
+    plan = [("aarch64", 32, 1600), ("s390x", 32, 1600), ("i686", 0, 1600), ("x86_64", 0, 1600)]
+    for target, q, t in plan:
+        n = q if tier == "quick" else t
+        if n <= 0:
+            continue
+        r = run_miri("C09", target, seed, 0, n, D.NCPU, 2 if tier == "quick" else 10, miri_seed_base=seed * 1000,
+                     portable=True, want_hashes=True)
+        cov["cross_process"].append({"configuration": "Miri " + TARGETS[target], "families": r["families"],
+                                     "operations": r["ops"], "wall_s": round(r["wall"], 1)})
+        if r["violation"]:
+            rep = report_miri_violation("C09", seed, r["violation"])
+            if rep:
+                return {"violation": rep, "coverage": cov}
+        bad = sorted(i for i in r["hashes"] if ref.get(i) != r["hashes"][i])
+        if bad:
+            v = {"how": "gen", "family": bad[0], "target": target, "miri_seed": seed * 1000, "extra_flags": "",
+                 "rustflags_extra": "", "portable": True}
+            path = miri_replay_file("C09", seed, v)
+            return {"violation": {"replay": path, "text": "result log of family %d differs between native x86_64 and "
+                                  "Miri %s" % (bad[0], TARGETS[target])}, "coverage": cov}
+    return {"coverage": cov, "assumptions": [
+        "cross-process comparison uses the portable generator (no target-specific backends named); the in-process "
+        "comparison covers the simulated-CPU dimension"]}
